@@ -635,6 +635,10 @@ def oracle_cases(ctx, deep):
     from panqec.config import CODES, DECODERS
     rng = ctx.np_rng(17)
     cases = []
+    # corpus: smallest witness of known finding D15 (union-find on a torus with a side of length 2);
+    # evaluated on every run so that the KNOWN-FINDING line is always printed
+    cases.append({'decoder': 'UnionFindDecoder', 'code': 'Toric2DCode', 'size': [2, 2],
+                  'direction': [0.25, 0.25, 0.5], 'p': 0.125, 'errors': [[[0], []]], 'kind': 'corpus-D15'})
     # exhaustive syndromes on tiny codes: one representative error per syndrome
     for cname, size in TINY:
         code = make_code(cname, size)
